@@ -18,16 +18,16 @@ var defectKinds = []string{
 	"similar-paths", "path-bad-user-types", "undefined-types-many-types", "undefined-macros", "bad-enum-bodies",
 	"request-without-body", "response-without-body", "headers-not-object",
 	"empty-path-parameter", "repeated-path-parameter", "path-parameters-redefined",
-	"duplicate-types-other-notation", "notation-mix",
+	"duplicate-types-other-notation", "notation-mix", "hostile-paths",
 }
 
 // defectGroups: kinds that are detected in the same phase of the builder.
 var defectGroups = [][]string{
-	{"request-without-body", "response-without-body", "headers-not-object"},                      // validateCatalog (last phase)
-	{"self-pasting-macros", "undefined-macros", "duplicate-macros"},                               // macro collection / paste
+	{"request-without-body", "response-without-body", "headers-not-object"}, // validateCatalog (last phase)
+	{"self-pasting-macros", "undefined-macros", "duplicate-macros"},         // macro collection / paste
 	{"duplicate-types", "duplicate-types-other-notation", "undefined-types-many-types", "rule-violating-types", "mutual-bad-types", "allof-missing", "undefined-enums", "notation-mix"}, // user types
-	{"duplicate-paths", "similar-paths", "path-extra-props", "path-bad-user-types", "path-parameters-redefined"}, // paths
-	{"empty-path-parameter", "repeated-path-parameter"},                                            // path parameters of Path-less directives
+	{"duplicate-paths", "similar-paths", "path-extra-props", "path-bad-user-types", "path-parameters-redefined"},                                                                        // paths
+	{"empty-path-parameter", "repeated-path-parameter", "hostile-paths"},                                                                                                                // path parameters of Path-less directives
 	{"undefined-tags", "duplicate-tags", "duplicate-servers", "duplicate-operation-ids", "duplicate-enums", "bad-enum-bodies"},
 }
 
@@ -96,6 +96,12 @@ func defectBlock(kind string, n int, r *Rand) string {
 		for i := 0; i < k; i++ {
 			fmt.Fprintf(&sb, "GET /zs%d_%d/{a}\n  200 any\nGET /zs%d_%d/{b}\n  200 any\n", n, i, n, i)
 		}
+	case "hostile-paths":
+		// URL paths made of unusual segments (empty, ".", "..", "{}", unbalanced braces, percent
+		// signs, ...), on stand-alone methods, URL groups and JSON-RPC, with and without Tags
+		for i := 0; i < k; i++ {
+			sb.WriteString(hostilePathBlock(hostilePath(r), r.Intn(6), n*10+i))
+		}
 	case "notation-mix":
 		// a user type of every notation and shape (regex, any, scalar, array, null, empty object, a
 		// reference chain that ends in one of those, an ENUM name) referenced from every place that
@@ -163,6 +169,77 @@ func defectBlock(kind string, n int, r *Rand) string {
 	return sb.String()
 }
 
+// pathTokens: the segment alphabet of hostile URL paths.
+var pathTokens = []string{"", ".", "..", "{}", "{a}", "{a}{b}", "{", "}", "a", "a.b", "%", "%2F", "{a", "a}", "*", "~", " ", "é", "{a}.json", "-", "a b"}
+
+func hostilePath(r *Rand) string {
+	n := r.Range(1, 4)
+	p := ""
+	for i := 0; i < n; i++ {
+		p += "/" + pathTokens[r.Intn(len(pathTokens))]
+	}
+	if r.Chance(1, 4) {
+		p += "/"
+	}
+	if r.Chance(1, 10) {
+		p = strings.TrimPrefix(p, "/")
+	}
+	return p
+}
+
+// pathEnumCount / genPathEnum: every path of 1..maxTok tokens, with and without a trailing
+// slash, in each of the six settings.
+func pathEnumCount(maxTok int) int {
+	n, pw := 0, 1
+	for l := 1; l <= maxTok; l++ {
+		pw *= len(pathTokens)
+		n += pw
+	}
+	return n * 12
+}
+
+func genPathEnum(index int) *Project {
+	form, slash, q := index%6, (index/6)%2, index/12
+	l, pw := 1, len(pathTokens)
+	for q >= pw {
+		q -= pw
+		pw *= len(pathTokens)
+		l++
+	}
+	path := ""
+	for i := 0; i < l; i++ {
+		path += "/" + pathTokens[q%len(pathTokens)]
+		q /= len(pathTokens)
+	}
+	if slash == 1 {
+		path += "/"
+	}
+	p := &Project{Kind: "path-enum", Root: "root.jst", Name: fmt.Sprintf("path:%q/%d", path, form)}
+	p.Files = []GenFile{{Path: "root.jst", Data: []byte("JSIGHT 0.3\n" + hostilePathBlock(path, form, 1))}}
+	return p
+}
+
+// hostilePathBlock renders one path in one of six settings.
+func hostilePathBlock(p string, form, n int) string {
+	if strings.ContainsAny(p, " ") {
+		p = "\"" + p + "\""
+	}
+	switch form {
+	case 0:
+		return fmt.Sprintf("GET %s\n  200 any\n", p)
+	case 1:
+		return fmt.Sprintf("URL %s\n  GET\n    200 any\n  POST\n    200 any\n", p)
+	case 2:
+		return fmt.Sprintf("URL %s\n  Protocol json-rpc-2.0\n  Method m%d\n    Params\n      {}\n    Result\n      1\n", p, n)
+	case 3:
+		return fmt.Sprintf("TAG @hp%d\nGET %s\n  Tags @hp%d\n  200 any\n", n, p, n)
+	case 4:
+		return fmt.Sprintf("GET %s\n  200 any\nDELETE %s\n  200 any\n", p, p)
+	default:
+		return fmt.Sprintf("URL %s\n  GET\n    200 any\nPOST %s\n  200 any\n", p, p)
+	}
+}
+
 // genMultiDefect: a valid project plus 2-4 independent defect blocks (kinds may repeat with
 // different names), appended to the root file or to one of its included files.
 func genMultiDefect(r *Rand) *Project { return genDefects(r, r.Range(2, 4)) }
@@ -219,6 +296,12 @@ func genDefects(r *Rand, n int) *Project {
 		}
 		f.Data = []byte(s + block)
 		p.Features = append(p.Features, "defect:"+k)
+		if r.Chance(1, 15) && !strings.HasPrefix(s, "\xef\xbb\xbf") {
+			// the file that holds the defect starts with a UTF-8 byte order mark (what Windows editors
+			// write): every position in that file is 3 bytes further than in the text after the mark
+			f.Data = append([]byte("\xef\xbb\xbf"), f.Data...)
+			p.Features = append(p.Features, "bom-file")
+		}
 	}
 	if r.Chance(1, 6) {
 		addWrongBaseInclude(p, r)
